@@ -10,6 +10,12 @@ CHECKS = {
    text="Generated search: every (op, a, b) is evaluated in all representation pairs (literal, i64, u64, i128, u128) and judged against an exact big-integer model; floats on a dyadic domain where exact answers exist; int/float comparisons against exact rational comparison. Holds on everything explored, no absence claim.",
    note="Trusts model/bigint.rs (unit tested, cross-checked against python3 in the thorough tier) and f64 arithmetic of the host for dyadic rationals.",
    design="3/C08"),
+ "C09": dict(
+   technique="property-based testing: complete enumeration of the quantifier's box plus proptest-generated boundary cases, differential against a Python slice.indices model",
+   level="exploration",
+   text="Every (kind, len, start, stop, step) of the stated box is enumerated (8 value kinds x len 0..=6 x 20 x 20 x 10 bounds, literal and variable form) together with i64-boundary and beyond-i64 rows and random cases; results (kind and items) are compared with an independent model of Python's slicing and subscripting.",
+   note="Trusts model/pyslice.rs (unit tested on CPython examples, cross-checked with python3 in the thorough tier). Out-of-range subscripts are expected to be undefined. Exhaustive only inside the stated box.",
+   design="3/C09"),
 }
 
 NOT_YET = "check not built yet in this session (work in progress; see DESIGN.md section 3 for the planned check)"
